@@ -5,6 +5,7 @@ import ast
 from typing import Dict
 
 from .. import cfg as cfgmod
+from .. import pat
 from .. import deps as depsmod
 from .. import facts, sqlexpr
 from ..index import AnalysisError, dotted_name, unparse, inline_local_consts
@@ -178,7 +179,8 @@ def twin_cleanup_rule(program, res, rule="C16-S3"):
     def removes(stmt, loopvar, aliases) -> bool:
         t = unparse(stmt)
         keys = [f"{loopvar} + '{suffix}'"] + list(aliases)
-        return any((f".drop({k}" in t or f".drop([{k}]" in t or f"del res[{k}]" in t or f".drop(columns=[{k}]" in t or f".drop(columns={k}" in t) for k in keys)
+        return any((f".drop({k}" in t or f".drop([{k}]" in t or (t.startswith("del ") and t.endswith(f"[{k}]")) or f".drop(columns=[{k}]" in t
+                    or f".drop(columns={k}" in t) for k in keys)
 
     loops = [n for n in g.stmt_nodes(("iter",)) if isinstance(n.stmt.target, ast.Name)]
     checked = 0
@@ -238,34 +240,55 @@ def _s3(program, res):
                 calls.append((c, guards))
     if len(calls) != 2:
         raise AnalysisError("natural_join_to_near_sql: expected two _coalesce_terms calls (left_is_first / not)")
+    # roles, read from the code: the sub-queries come out of _natural_join_sub_queries as (using_left, sql_left, using_right, sql_right);
+    # the alias of each is the public_name_quoted it is bound with in the NearSQLBinaryStep
+    sub = pat.first("(_UL, _SL, _UR, _SR) = self._natural_join_sub_queries()", nj.node) or pat.first("_UL, _SL, _UR, _SR = self._natural_join_sub_queries()", nj.node)
+    if sub is None:
+        raise AnalysisError("natural_join_to_near_sql: `using_left, sql_left, using_right, sql_right = self._natural_join_sub_queries(...)` not found")
+    sql_left, sql_right = sub[1]["_SL"], sub[1]["_SR"]
+    binary = [c for c in ast.walk(nj.node) if isinstance(c, ast.Call) and dotted_name(c.func) == "data_algebra.near_sql.NearSQLBinaryStep"]
+    if not binary:
+        raise AnalysisError("natural_join_to_near_sql: NearSQLBinaryStep construction not found")
+    kwsb = {kw.arg: kw.value for kw in binary[0].keywords}
+
+    def bound(sub_kw):
+        c = kwsb.get(sub_kw)
+        if isinstance(c, ast.Call) and isinstance(c.func, ast.Attribute) and c.func.attr == "to_bound_near_sql" and isinstance(c.func.value, ast.Name):
+            k = {kw.arg: kw.value for kw in c.keywords}
+            a = k.get("public_name_quoted")
+            return c.func.value.id, (a.id if isinstance(a, ast.Name) else None)
+        return None, None
+    (q1, a1), (q2, a2) = bound("sub_sql1"), bound("sub_sql2")
+    if q1 == sql_left and q2 == sql_right and a1 and a2 and a1 != a2:
+        res.ok("C16-S3", f"SQL: the left sub-query is aliased {a1}, the right sub-query {a2}")
+        left_alias, right_alias = a1, a2
+    else:
+        res.fail_at("C16-S3", nj, "alias-binding", f"the join's sub-queries are bound ({q1}→{a1}, {q2}→{a2}); expected ({sql_left}, {sql_right}) each with its own alias", binary[0])
+        left_alias, right_alias = a1 or "left_qqn", a2 or "right_qqn"
     for (c, guards) in calls:
         kws = {kw.arg: unparse(kw.value) for kw in c.keywords}
         lif = [lab for (t, lab) in guards if t == "left_is_first"]
         if not lif:
             raise AnalysisError("natural_join_to_near_sql: _coalesce_terms call not under `if left_is_first`")
-        want_first = "left_qqn" if lif[0] else "right_qqn"
+        want_first = left_alias if lif[0] else right_alias
         if kws.get("sub_view_name_first") == want_first and kws.get("sub_view_name_second") != want_first:
             res.ok("C16-S3", f"SQL: left_is_first={lif[0]} -> first coalesce operand {want_first}")
         else:
             res.fail_at("C16-S3", nj, f"coalesce-direction:left_is_first={lif[0]}",
                         f"with left_is_first={lif[0]} the coalesce prefers {kws.get('sub_view_name_first')}: a shared non-key column "
                         f"would take the right value even where the left is not null", c)
-    # left_qqn is the alias of the left sub-query
-    binary = [c for c in ast.walk(nj.node) if isinstance(c, ast.Call) and dotted_name(c.func) == "data_algebra.near_sql.NearSQLBinaryStep"]
-    kws = {kw.arg: kw.value for kw in binary[0].keywords}
-    s1 = unparse(kws["sub_sql1"])
-    s2 = unparse(kws["sub_sql2"])
-    if s1.startswith("sql_left.") and "public_name_quoted=left_qqn" in s1 and s2.startswith("sql_right.") and "public_name_quoted=right_qqn" in s2:
-        res.ok("C16-S3", "SQL: left sub-query is aliased left_qqn, right sub-query right_qqn")
-    else:
-        res.fail_at("C16-S3", nj, "alias-binding", "the join's sub-queries are not bound left→left_qqn / right→right_qqn", binary[0])
     # ON clause pairs on_a with the left alias and on_b with the right alias
     on_ok = False
     for c in ast.walk(nj.node):
-        if isinstance(c, ast.ListComp) and "zip(join_node.on_a, join_node.on_b)" in unparse(c.generators[0].iter):
+        if isinstance(c, ast.ListComp) and isinstance(c.generators[0].target, ast.Tuple) and len(c.generators[0].target.elts) == 2 \
+                and unparse(c.generators[0].iter).replace(" ", "") == "zip(join_node.on_a,join_node.on_b)":
+            va, vb = [t.id for t in c.generators[0].target.elts if isinstance(t, ast.Name)]
             e = unparse(c.elt)
-            if e.index("left_qqn") < e.index("c_a") < e.index("right_qqn") < e.index("c_b"):
-                on_ok = True
+            try:
+                if e.index(left_alias) < e.index(f"quote_identifier({va})") < e.index(right_alias) < e.index(f"quote_identifier({vb})"):
+                    on_ok = True
+            except ValueError:
+                pass
     if on_ok:
         res.ok("C16-S3", "SQL: ON pairs left.on_a[i] = right.on_b[i]")
     else:
@@ -307,14 +330,15 @@ def _s3(program, res):
                 res.fail_at("C16-S3", pj, "pandas-merge-sides", f"pd.merge(left={kws.get('left')}, right={kws.get('right')})", c)
     if suffix is None:
         raise AnalysisError("Pandas _natural_join_step: merge suffixes=('', <right suffix>) not found")
-    for st in ast.walk(pj_node):
-        if isinstance(st, ast.Assign) and isinstance(st.targets[0], ast.Subscript) and unparse(st.targets[0].value) == "res.loc":
-            tgt = unparse(st.targets[0].slice).strip("()")
-            val = unparse(st.value)
-            if "is_null" in tgt and tgt.endswith(", c") and f"c + '{suffix}'" in val:
-                ok = True
-    isnull_src = [st for st in ast.walk(pj_node) if isinstance(st, ast.Assign) and unparse(st.targets[0]) == "is_null"]
-    if ok and isnull_src and unparse(isnull_src[0].value) == "res[c].isnull()":
+    fills = pat.find("_F.loc[_M, _C] = _F.loc[_M, _C + __S]", pj_node)
+    fills = [(n, e) for (n, e) in fills if e["__S"] == repr(suffix)]
+    good_fill = None
+    for (n, e) in fills:
+        # the mask marks the nulls of the *left* column: _M = _F[_C].isnull()
+        masks = [m for (m, e2) in pat.find("_M = _F[_C].isnull()", pj_node) if e2 == {k: e[k] for k in ("_M", "_F", "_C")}]
+        if masks:
+            good_fill = (n, e)
+    if good_fill is not None:
         res.ok("C16-S3", "Pandas: nulls of the left column are filled from the suffixed right twin")
     else:
         res.fail_at("C16-S3", pj, "pandas-coalesce-direction", "the shared-column fix-up no longer fills nulls of the left column from the right twin")
@@ -330,8 +354,10 @@ def polars_coalesce_rule(program, res, rule="C16-S3"):
     if len(whens) != 2:
         raise AnalysisError("Polars _natural_join_step: expected two coalescing when/then/otherwise expressions")
     t0, t1 = unparse(whens[0]), unparse(whens[1])
-    ok0 = t0.startswith("pl.when(pl.col(c).is_null()).then(pl.col(c + '_da_right_tmp')).otherwise(pl.col(c))")
-    ok1 = t1.startswith("pl.when(pl.col(c + '_da_left_tmp').is_null()).then(pl.col(c)).otherwise(pl.col(c + '_da_left_tmp'))")
+    # left join family: when the left value is null take the right twin (suffix of the first join), else keep the left value
+    ok0 = pat.match("pl.when(pl.col(_C).is_null()).then(pl.col(_C + __S)).otherwise(pl.col(_C)).alias(_C)", whens[0]) is not None
+    # right join simulated by a swapped left join: the original left value is the twin; keep it unless it is null
+    ok1 = pat.match("pl.when(pl.col(_C + __S).is_null()).then(pl.col(_C)).otherwise(pl.col(_C + __S)).alias(_C)", whens[1]) is not None
     if ok0:
         res.ok(rule, "Polars: left value, else the right twin")
     else:
@@ -340,7 +366,6 @@ def polars_coalesce_rule(program, res, rule="C16-S3"):
         res.ok(rule, "Polars (right join simulated by swapped left join): original left value, else the right one")
     else:
         res.fail_at(rule, plj, "polars-coalesce-direction-right", f"`{t1[:110]}` does not prefer the original left value", whens[1])
-
 
 
 def polars_join_guard_rule(program, res, rule="C16-S3"):
